@@ -171,6 +171,44 @@ Definition rtranslate (s : pstate) (va : Z) : res (pstate * out) :=
 
 (* clean_up: like the mapped one, plus the level-4 filter on the recursive slot and the skip
    of huge entries; lower tables are reached through the recursive address of `start` *)
+(* the loop of rclean_up, with the recursive call as a parameter *)
+Definition rcu_loop (rec : pstate -> Z -> Z -> Z -> Z -> res (pstate * bool))
+  (table level table_addr rs re e : Z) : nat -> Z -> pstate -> res pstate :=
+  let offset_per_entry := entry_alignment level in
+  fix loop (n : nat) (i : Z) (s : pstate) : res pstate :=
+    match n with
+    | O => Ok s
+    | S n' =>
+        if e <? i then Ok s else
+        let slot := table + 8 * i in
+        let en_ := rd s slot in
+        if (level =? 4) && (i =? rec_index s) then loop n' (i + 1) s
+        else if e_huge en_ then loop n' (i + 1) s
+        else if negb (e_present en_) then loop n' (i + 1) s
+        else
+          let frame := e_addr en_ in
+          do m <- mul64 true offset_per_entry i;
+          do st <- forward_checked_u64 table_addr m;
+          do st <- unwrap st;
+          do en <- va_add st (offset_per_entry - 1);
+          do sp <- page_containing S4K st;
+          let sp := pmax sp rs in
+          do ep <- page_containing S4K en;
+          let ep := pmin ep re in
+          let tp := if level =? 4 then p3_page sp (rec_index s)
+                    else if level =? 3 then p2_page sp (rec_index s)
+                    else p1_page sp (rec_index s) in
+          do tpv <- tp;
+          match deref s tpv with
+          | None => Ok (set_fault s)
+          | Some t =>
+              do r <- rec s t (level - 1) sp ep;
+              let '(s1, empty) := r in
+              if empty then loop n' (i + 1) (deallocate (wr s1 slot 0) frame)
+              else loop n' (i + 1) s1
+          end
+    end.
+
 Fixpoint rclean_up (fuel : nat) (s : pstate) (table level rs re : Z) : res (pstate * bool) :=
   match fuel with
   | O => Panic
@@ -180,41 +218,8 @@ Fixpoint rclean_up (fuel : nat) (s : pstate) (table level rs re : Z) : res (psta
       let start := page_table_index rs level in
       let e := page_table_index re level in
       do s' <-
-        (if level =? 1 then Ok s else
-         let offset_per_entry := entry_alignment level in
-         (fix loop (n : nat) (i : Z) (s : pstate) : res pstate :=
-            match n with
-            | O => Ok s
-            | S n' =>
-                if e <? i then Ok s else
-                let slot := table + 8 * i in
-                let en_ := rd s slot in
-                if (level =? 4) && (i =? rec_index s) then loop n' (i + 1) s
-                else if e_huge en_ then loop n' (i + 1) s
-                else if negb (e_present en_) then loop n' (i + 1) s
-                else
-                  let frame := e_addr en_ in
-                  do m <- mul64 true offset_per_entry i;
-                  do st <- forward_checked_u64 table_addr m;
-                  do st <- unwrap st;
-                  do en <- va_add st (offset_per_entry - 1);
-                  do sp <- page_containing S4K st;
-                  let sp := pmax sp rs in
-                  do ep <- page_containing S4K en;
-                  let ep := pmin ep re in
-                  let tp := if level =? 4 then p3_page sp (rec_index s)
-                            else if level =? 3 then p2_page sp (rec_index s)
-                            else p1_page sp (rec_index s) in
-                  do tpv <- tp;
-                  match deref s tpv with
-                  | None => Ok (set_fault s)
-                  | Some t =>
-                      do r <- rclean_up fuel' s t (level - 1) sp ep;
-                      let '(s1, empty) := r in
-                      if empty then loop n' (i + 1) (deallocate (wr s1 slot 0) frame)
-                      else loop n' (i + 1) s1
-                  end
-            end) 512%nat start s);
+        (if level =? 1 then Ok s
+         else rcu_loop (rclean_up fuel') table level table_addr rs re e 512%nat start s);
       Ok (s', table_all_unused s' table)
   end.
 Definition rclean_up_addr_range (s : pstate) (rs re : Z) : res pstate :=
